@@ -164,6 +164,12 @@ func c14ExprCtxs() []c14Ctx {
 		{"is_int({})", 0, "", true, 'B'},
 		{"join(',', key, {}) != ''", 0, "", true, 'B'},
 		{"{} in ('a', 'b')", 'T', "NBLJ", true, 'B'},
+		// a list computed by a function: its element type is only known at run time, so text and
+		// numbers are both accepted on the left; execution must then not fail on the mismatch
+		{"{} in split(value, ',')", 'T', "BLJ", true, 'B'},
+		{"{} in split(value, ',')", 'N', "BLJ", true, 'B'},
+		{"{} in list(1, 10)", 'T', "BLJ", true, 'B'},
+		{"{} in int_list(1, 10)", 'N', "BLJ", true, 'B'},
 		{"key in ('a', {})", 'T', "NBLJ", true, 'B'},
 		{"int(value) in (1, {})", 'N', "TBLJ", true, 'B'},
 		{"{} between 'a' and 'b'", 'T', "NBLJ", true, 'B'},
